@@ -1,6 +1,7 @@
 import Oracle.Proto
 import MV.Model.Mailbox
 import MV.Spec.Mailbox
+import MV.Model.MailboxFacts
 /-!
 Oracle suites for the mailbox (T-sched): the model executes the same schedule as the instrumented
 Go code, one scheduling quantum per `run` line.
@@ -72,7 +73,7 @@ def model : Suite where
         | some i => runLine s i
         | none => (s, "bad-op")
     | ["drain"] =>
-        let s' := drain s 100000
+        let s' := drain s 3000
         (s', fmtFinal s')
     | _ => (s, "bad-op")
 
@@ -85,5 +86,31 @@ def judge (c01 : Bool) : Suite where
     | _ :: out =>
       if toks.head? == some "drain" then ((), MV.Spec.Mailbox.judgeFinal c01 out) else ((), "ok")
     | [] => ((), "bad-op")
+
+/-- T-facts: `facts <lockfree|globalordered> <Func>` answers the skeleton the model was transcribed
+from (one table for both mailbox files) -/
+def factsSuite : Suite where
+  σ := Unit
+  init := ()
+  step _ toks := match toks with
+    | ["facts", k, f] =>
+      if k == "lockfree" || k == "globalordered" then
+        match MV.Model.MailboxFacts.table.lookup f with
+        | some s => ((), s)
+        | none => ((), "bad-op")
+      else ((), "bad-op")
+    | _ => ((), "bad-op")
+
+/-- the dispatcher assumption of the mailbox model as an oracle: every dispatched function runs
+exactly once, whatever the dispatcher and its configuration -/
+def dispatchSuite : Suite where
+  σ := Unit
+  init := ()
+  step _ toks := match toks.getLast? with
+    | some n => match n.toNat? with
+      | some n => if toks.head? == some "goroutine" || toks.head? == some "ants"
+          then ((), s!"dispatched={n} not-exactly-once=0") else ((), "bad-op")
+      | none => ((), "bad-op")
+    | none => ((), "bad-op")
 
 end Oracle.Mailbox
